@@ -75,4 +75,77 @@ def histFac (m : Mesh) (a : Nat) : List HStep → Rat
 /-- factor by which a history multiplies the cell volume -/
 def histVol (m : Mesh) (steps : List HStep) : Rat := ratProd (tab m.ndim fun a => histFac m a steps)
 
+/-! ## histories with quarter turns
+
+`Field.rotate90(ax1, ax2, k, reference_point, inplace=True)` between evaluations: the shared exact
+model `T.rotate90F` (cells permuted by `np.rot90`, counts / edges / units of the two axes traded
+for odd `k`, the two mapped components turned by the exact quarter-turn matrix; the field gets
+the turned mesh as a new object). -/
+
+/-- every cell value carries `nvdim` components (what the value setter guarantees; part of C12's
+value invariant `FldVInv`) -/
+def CellLen (f : Fld) : Prop := ∀ t, inRange f.data.shape t = true → (f.data.get t).length = f.nvdim
+
+/-- the sum of component `c` over all cells (spec layer) -/
+def csum (f : Fld) (c : Nat) : Rat := nestSum f.data.shape fun t => cget f.data t c
+
+/-- one in-place step of a field's history: a step on its mesh / region object, or a quarter
+turn of the field itself -/
+inductive FStep where
+  | mesh (s : HStep)
+  | rot (a1 a2 : String) (k : Int) (ref : Option (List Rat))
+  deriving Repr
+
+/-- the field after the step; a rejected step leaves everything as it was -/
+def fstep (f : Fld) : FStep → Fld
+  | .mesh s => hstep f s
+  | .rot a1 a2 k ref =>
+    match rotate90F f a1 a2 k ref true with
+    | .ok (recv, _) => recv
+    | .error _ => f
+
+/-- the field after a whole history -/
+def runFS (f : Fld) : List FStep → Fld
+  | [] => f
+  | s :: rest => runFS (fstep f s) rest
+
+/-- all states of the field along a history (before the first step, after each step) -/
+def statesFS (f : Fld) : List FStep → List Fld
+  | [] => [f]
+  | s :: rest => f :: statesFS (fstep f s) rest
+
+/-- what a quarter turn does to a list of per-component totals of the field: the two mapped
+components of a vector field are turned by the quarter-turn matrix, a scalar field's value stays -/
+def turnVals (f : Fld) (a1 a2 : String) (k : Int) (v : List Rat) : List Rat :=
+  if f.nvdim > 1 then
+    match (f.rDim a1).bind f.vdimIndex, (f.rDim a2).bind f.vdimIndex with
+    | some c1, some c2 => rotVec v c1 c2 k
+    | _, _ => v
+  else v
+
+/-- factor by which one step multiplies the cell volume (a quarter turn: 1) -/
+def fstepVol (f : Fld) : FStep → Rat
+  | .mesh s => histVol f.mesh [s]
+  | .rot _ _ _ _ => 1
+
+/-- factor by which a history multiplies the cell volume -/
+def fhistVol (f : Fld) : List FStep → Rat
+  | [] => 1
+  | s :: rest => fstepVol f s * fhistVol (fstep f s) rest
+
+/-- what one step does to a list of per-component totals (only an accepted quarter turn of a
+vector field changes it) -/
+def fstepTurn (f : Fld) (s : FStep) (v : List Rat) : List Rat :=
+  match s with
+  | .mesh _ => v
+  | .rot a1 a2 k ref =>
+    match rotate90F f a1 a2 k ref true with
+    | .ok _ => turnVals f a1 a2 k v
+    | .error _ => v
+
+/-- … and a whole history -/
+def fhistTurn (f : Fld) : List FStep → List Rat → List Rat
+  | [], v => v
+  | s :: rest, v => fhistTurn (fstep f s) rest (fstepTurn f s v)
+
 end DFV.C06
